@@ -19,7 +19,7 @@ pub fn prop() -> Prop {
         check,
         quick_runs: 16_000,
         both_profiles: false,
-        rule: "a run = a stream mixing all nine supported formats, unsupported DFs, zero-address frames, parity failures, length/DF mismatches and junk, under a -f subset (singletons, pairs, all, none, DFs that never occur), with/without -c, with --update=-1 (a refresh and counter line after every accepted frame) or positive intervals matched by simulated time steps; file source or TCP connections; non-trivial = at least one counter line was compared and (with -f) at least one frame was filtered out; distinct = distinct scripts",
+        rule: "a run = a stream mixing all nine supported formats, unsupported DFs, zero-address frames, parity failures, length/DF mismatches and junk, under a -f subset (singletons, pairs, all, none, DFs that never occur), with/without -c, with --update=-1 (a refresh and counter line after every accepted frame) or positive intervals matched by simulated time steps; file source or TCP connections; silences of delete_after seconds and more inside a connection; non-trivial = at least one counter line was compared and (with -f) at least one frame was filtered out; distinct = distinct scripts",
         level_text: "seeded exploration of mixed streams with the refresh driven by the simulated clock and stdout captured through the seam; oracle: reference per-DF counter over accepted, non-zero-address, filter-passing frames of the connection equals the printed counter line (ascending DF order), filtered frames change neither table nor output, no counter line without -c",
     }
 }
@@ -110,6 +110,14 @@ fn gen(rng: &mut Rng, idx: u64, tier: Tier) -> Case {
         lines.push((dt, b.clone(), tag.clone()));
         if rng.chance(0.1) { lines.push((0, b, format!("{}:duplicate", tag.split(':').next().unwrap_or("")))); }
     }
+    // the feed stays connected but silent for about delete_after seconds (or much longer) once or twice
+    if lines.len() >= 2 && rng.chance(0.12) {
+        for _ in 0..rng.range(1, 2) {
+            let i = rng.range(1, lines.len() as i64 - 1) as usize;
+            lines[i].0 = match rng.below(4) { 0 => d * 1_000_000, 1 => d * 1_000_000 + rng.range(1, 2_000_000), 2 => 3 * d * 1_000_000, _ => rng.range(d * 1_000_000, 2 * d * 1_000_000) };
+            lines[i].2 = format!("{}:after-silence", lines[i].2.split(':').next().unwrap_or(""));
+        }
+    }
     let ch = *rng.pick(&[Chunking::Line, Chunking::Line, Chunking::Line, Chunking::Pieces, Chunking::Multi]);
     let mut script = Script::file(args, vec![]);
     script.tcp = rng.chance(0.3);
@@ -174,6 +182,7 @@ fn check(case: &Case, st: &mut Stats) -> Vec<Violation> {
         }
         filtered_seen += filtered_here;
         if filtered_here > 0 { st.probe("filtered_frame_seen"); }
+        if s.tag.contains("after-silence") { st.probe("long_silence_inside_connection"); }
         st.oracle_evals += 1;
         // frames outside the filter (and rejected lines) leave table and output untouched
         if all_filtered_or_rejected && !s.lines.is_empty() {
